@@ -17,7 +17,7 @@ func init() {
 			"(2) every concrete type handed to Register{Component,Connection,Resource,Port} in library code has both SaveCheckpoint and LoadCheckpoint; " +
 			"(3) for each of the checkpoint pairs (engine, component, event-driven component, port and its buffer helper, page table, ID generator) every field of the serialised record is set by Save and read by Load, and no record field is restored into the object field another record field was saved from; " +
 			"(4) every JSON decode on a load path targets a fresh zero-valued local (decoding into live state merges instead of replacing); " +
-			"(5) the event queue snapshot orders a copy with the heap's own less and does not modify the queue, and restore re-pushes in the given order.",
+			"(5) the event queue snapshot orders a copy with the heap's own less and does not modify the queue, and restore re-pushes in the given order. (load-passive) nothing reachable from a load entry point schedules an event, ticks or notifies a component or connection, or draws an ID.",
 		NotDecided:  "equality of traces and of final state for actual runs; Storage's binary format (decided under C20).",
 		Assumptions: []string{"types reachable from a State type are only instantiated inside component State", "tracing/recording state is observer-side (the property says tracing off)"},
 	}, runC06)
@@ -170,6 +170,7 @@ func runC06(c *Ctx) {
 	symmetryRule(c, "save-load-symmetry")
 	freshDecodeRule(c, "fresh-decode-target")
 	loadReplacesRule(c, "load-replaces")
+	loadPassiveRule(c, "load-passive", 40)
 	loadRestoresRule(c, "load-restores", func(pp string) bool { return !clientPkg(pp) }, 5)
 	savedCoversWrittenRule(c, "saved-covers-written", func(pp string) bool { return !clientPkg(pp) }, 6)
 
@@ -1199,4 +1200,42 @@ func loopOrdinal(fn *ssa.Function, l *loopInfo) int {
 		}
 	}
 	return k
+}
+
+// loadPassiveRule: loading a checkpoint only restores state. Nothing reachable
+// from a load entry point schedules an event, ticks or notifies a component or a
+// connection, or draws an ID: each of those makes the resumed run handle an event
+// (or hand out an ID) that the uninterrupted run never saw.
+func loadPassiveRule(c *Ctx, rule string, floor int) {
+	p := c.P
+	roots := p.loadRoots()
+	reach := p.ModCG().Reach(roots, nil)
+	active := map[string]bool{"Schedule": true, "TickLater": true, "TickNow": true, "NotifyRecv": true, "NotifyPortFree": true,
+		"NotifyAvailable": true, "NotifySend": true, "Generate": true, "ScheduleWakeAt": true, "ScheduleWakeNow": true}
+	var fns []*ssa.Function
+	for fn := range reach {
+		fns = append(fns, fn)
+	}
+	sort.Slice(fns, func(i, j int) bool { return SSAFuncKey(fns[i]) < SSAFuncKey(fns[j]) })
+	n := 0
+	for _, fn := range fns {
+		if fn.Pkg == nil || !strings.HasPrefix(fn.Pkg.Pkg.Path(), ModPath) || clientPkg(fn.Pkg.Pkg.Path()) {
+			continue
+		}
+		n++
+		for _, b := range fn.Blocks {
+			for _, in := range b.Instrs {
+				call, ok := in.(ssa.CallInstruction)
+				if !ok {
+					continue
+				}
+				name, pkg := calleeNamePkg(call)
+				if !active[name] || !strings.HasPrefix(pkg, ModPath) {
+					continue
+				}
+				c.Fail(rule, SSAFuncKey(fn)+"#"+name, in.Pos(), "a checkpoint load path calls "+name+" ("+PathTo(reach, fn)+"): loading must only restore state; an event scheduled, a component woken or an ID drawn during the load is one the uninterrupted run never had, so the resumed run diverges from it")
+			}
+		}
+	}
+	c.Check(n >= floor, rule, "<load closure>", 0, itoa(n)+" functions reachable from the load entry points inspected; none schedules, ticks, notifies or draws an ID", "the load closure has shrunk below the size confirmed by hand")
 }
